@@ -31,13 +31,13 @@ def routeNameLits : Nat := 12
 /-- (R *StoreManager) MailboxForAddress(P string) returns exactly R.AddrPolicy.ExtractMailbox(P): `return R.AddrPolicy.ExtractMailbox(P)`, or `v, err := R.AddrPolicy.ExtractMailbox(P)` followed by `return v, err` / `if err != nil { return "", err }; return v, nil` -/
 def mailboxForAddressIsExtract : Bool := true
 
-/-- canonicalDomain (= the one (string) string helper both naming returns go through; parameter D) is "LIT + strings.ToLower(D[N:]) when strings.HasPrefix(D, LIT), strings.ToLower(D) otherwise" in any if / else / switch arrangement: (LIT, N) -/
+/-- canonicalDomain (= the one (string) string helper both naming returns go through; parameter D) is "LIT + strings.ToLower(D[N:]) when strings.HasPrefix(D, LIT), strings.ToLower(D) otherwise" in any if / else / switch arrangement: (LIT, N); `T, ok := strings.CutPrefix(D, LIT)` counts as HasPrefix(D, LIT) and, under ok, D[len(LIT):] -/
 def canonicalDomainShape : Option (String × Nat) := some ("[IPv6:", 6)
 
 /-- bytes of that LIT -/
 def canonicalDomainLit : Option (List Nat) := some [91, 73, 80, 118, 54, 58]
 
-/-- ValidateDomainPart (parameter D): the argument of the one net.ParseIP call is D[S : len(D)-1] where the local S is defined as 1 and is set to N under the one `strings.HasPrefix(D[1:], LIT)` and nowhere else: (LIT, N) -/
+/-- ValidateDomainPart (parameter D), or the unexported helper it hands D to: the argument of the one net.ParseIP call is the text D[a : len(D)-1] where a is N when the text behind the opening bracket starts with LIT and 1 otherwise — found by evaluating the statements in front of the call symbolically, so an offset variable set under strings.HasPrefix(D[1:], LIT), a text variable cut with strings.CutPrefix / TrimPrefix / HasPrefix + slice (N = 1 + len(LIT)) are the same fact: (LIT, N) -/
 def validateTag : Option (String × Nat) := some ("IPv6:", 6)
 
 /-- bytes of that LIT -/
@@ -67,7 +67,7 @@ def domainReturn : Option String := some "$canon($dom)"
 /-- some non-test file of pkg/server/pop3 imports pkg/policy or mentions ExtractMailbox / MailboxForAddress -/
 def pop3UsesPolicy : Bool := false
 
-/-- pkg/server/pop3: the session field handed to GetMessages (the mailbox key) is only ever assigned `A[0]`, inside the handler that has the USER clause (once in that clause), where A is that handler's never-written []string parameter; A is result 1 of the command parser at every call of the handler, and the parser returns (strings.ToUpper(W[0]), W[1:]) for W = strings.Split(line, " ") after at most trimming CR / LF -/
+/-- pkg/server/pop3: the session field handed to GetMessages (the mailbox key) is only ever assigned `A[0]`, inside the handler that has the USER clause (once in that clause), where A is that handler's never-written []string parameter; A is result 1 of the command parser at every call of the handler, and the parser returns (strings.ToUpper(W[0]), W[1:]) for W = strings.Split(line, " ") after at most trimming CR / LF (or the strings.Cut spelling of that pair: the text in front of the first space, and the empty list without a space / strings.Split of the text behind it with one) -/
 def pop3UserVerbatim : Bool := true
 
 end Ibx.Gen.Addr2
